@@ -43,11 +43,25 @@ impl Connection {
   }
 
   pub(crate) fn recv(&mut self) -> Result<Message> {
-    // The message header is four bytes of message length, plus a one byte instruction.
+    // The message header is four bytes of message length, plus a one byte
+    // instruction. A keep-alive is a bare zero length with no instruction, so the
+    // length is read first and keep-alives are skipped.
     let mut header = [0u8; 5];
+
+    loop {
+      self
+        .stream
+        .read_exact(&mut header[..4])
+        .context(error::Network)?;
+
+      if header[..4] != [0; 4] {
+        break;
+      }
+    }
+
     self
       .stream
-      .read_exact(&mut header)
+      .read_exact(&mut header[4..])
       .context(error::Network)?;
 
     let length = u32::from_be_bytes(
